@@ -20,7 +20,7 @@ RULE = ("one case per chain dictionary rendered by a viewer; non-trivial = the c
 ANCHORS = ["decaylanguage.decay.viewer:DecayChainViewer._build_decay_graph", "decaylanguage.decay.viewer:DecayChainViewer.__init__",
            "decaylanguage.decay.viewer:DecayChainViewer.to_string"]
 WORKERS = {"quick": 4, "thorough": 16}
-REQUIRED = {"line-without-daughters": 5, "table>=4-lines-distinct-bf": 20, "leaf-line-daughters-unsorted": 20, "repeated-decaying-daughter": 10, "empty-table-daughter": 10,
+REQUIRED = {"line-without-daughters": 5, "branching-fraction-zero": 10, "table>=4-lines-distinct-bf": 20, "leaf-line-daughters-unsorted": 20, "repeated-decaying-daughter": 10, "empty-table-daughter": 10,
             "from-class-representation": 10, "evtgen-specific-name": 20, "alias-or-unknown-name": 20, "depth>=3": 10, "daughters>=5-in-ported-node": 5,
             "graphs-in-one-process>=3": 1, "dot-accepted": 50}
 ASSUMPTIONS = ["Graphviz `dot` and the particle package's LaTeX->HTML name conversion are trusted", "labels contain no '<' or '&' (label alphabet)",
@@ -163,6 +163,8 @@ def _flatten(tree):
 def classify(ctx, chain, al=()):
     def walk(modes, depth):
         bfs = [m["bf"] for m in modes]
+        if any(b == 0 for b in bfs):
+            ctx.hit("branching-fraction-zero")
         if len(modes) >= 4 and len(set(bfs)) == len(bfs):
             ctx.hit("table>=4-lines-distinct-bf")
         for mode in modes:
@@ -196,6 +198,12 @@ def run(ctx):
     r = ctx.rng
     for i in range(ctx.pick(35, 400)):
         stmts, T, parts, exp = C09.gen_tables(ctx, max_paths=10**9, max_size=150)
+        if i % 3 == 0:      # branching fractions that are exactly zero (about 300 lines of DECAY_LHCB.DEC are 0.0000)
+            for st in stmts:
+                if st["k"] == "Decay":
+                    for ln in st["lines"]:
+                        if r.random() < 0.3:
+                            ln["bf"] = r.choice(["0", "0.0000", "0.0"])
         text = L.render(stmts)
         ok, res = ctx.guard("parse", {"kind": "graph", "text": text}, snapshot.make_parser, text)
         if not ok:
@@ -212,7 +220,7 @@ def run(ctx):
     for i in range(ctx.pick(15, 150)):
         n = r.choice([1, 2, 3, 4, 6])
         ch = chains.random_chain(r, n, max_mult=2)
-        dc = DecayChain(ch["mother"], {k: DecayMode(v[0], v[1], model="PHSP") for k, v in ch["types"].items()})
+        dc = DecayChain(ch["mother"], {k: DecayMode(0 if (i + j) % 4 == 0 else v[0], v[1], model="PHSP") for j, (k, v) in enumerate(ch["types"].items())})
         d = dc.to_dict()
         ctx.hit("from-class-representation")
         classify(ctx, d)
